@@ -1,0 +1,78 @@
+// Copyright ©2013 The bíogo Authors. All rights reserved.
+// Use of this source code is governed by a BSD-style
+// license that can be found in the LICENSE file.
+
+//go:build verif
+
+// Contracts for the hvc verifier (see /verif/DESIGN.md). This file contains
+// comments only; it adds nothing to the package.
+package fai
+
+// FASTA layout described by a Record: the sequence starts at byte Start; every
+// line holds BasesPerLine bases followed by line terminator bytes, BytesPerLine
+// bytes in all. Base k therefore sits on line k div BasesPerLine at column
+// k mod BasesPerLine.
+//@ spec func wfRec(r Record) bool = r.BasesPerLine > 0 && r.BasesPerLine <= r.BytesPerLine && r.BytesPerLine <= 1048576 &&
+//@     0 <= r.Start && r.Start <= 1125899906842624 && 0 <= r.Length && r.Length <= 1099511627776
+//@ opaque spec func basePos(r Record, k int) int64 = r.Start + int64(div(k, r.BasesPerLine) * r.BytesPerLine + mod(k, r.BasesPerLine))
+//@ opaque spec func toLineEnd(r Record, k int) int = min(r.BasesPerLine - mod(k, r.BasesPerLine), r.Length - k)
+
+//@ func Record.position
+//@   mode int
+//@   props C19
+//@   requires wfRec(r) && 0 <= p && p <= r.Length
+//@   ensures[C19] @layout result == basePos(r, p)
+
+//@ func Record.Position
+//@   mode int
+//@   props C19
+//@   requires wfRec(r)
+//@   panics when p < 0 || r.Length <= p
+//@   ensures[C19] @layout result == basePos(r, p)
+
+//@ func Record.endOfLineOffset
+//@   mode int
+//@   props C19
+//@   requires wfRec(r) && 0 <= p && p <= r.Length
+//@   ensures[C19] @toend result == toLineEnd(r, p)
+
+// Bases up to the end of the line are contiguous in the file, the run ends at
+// the line end or the sequence end, and later bases are never closer in the
+// file than in the sequence: the facts Seq.Read relies on.
+//@ lemma[C19] int contiguous: forall r Record, p int, q int ::
+//@     wfRec(r) && 0 <= p && p <= q && q < p + toLineEnd(r, p) && q <= r.Length ==> basePos(r, q) == basePos(r, p) + int64(q - p)
+//@ lemma[C19] int runpositive: forall r Record, p int :: wfRec(r) && 0 <= p && p < r.Length ==> 1 <= toLineEnd(r, p) && p + toLineEnd(r, p) <= r.Length
+//@ lemma[C19] int spread: forall r Record, p int, q int ::
+//@     wfRec(r) && 0 <= p && p <= q && q <= r.Length ==> basePos(r, q) - basePos(r, p) >= int64(q - p)
+//@ lemma[C19] int nextline: forall r Record, p int, q int ::
+//@     wfRec(r) && 0 <= p && p < r.Length && p + toLineEnd(r, p) <= q && q <= r.Length ==> basePos(r, q) - basePos(r, p) >= int64(toLineEnd(r, p))
+
+// The file behind an io.ReaderAt is a fixed sequence of bytes, fileByte(src, off).
+//@ uninterp func fileByte(src io.ReaderAt, off int64) byte
+//@ trusted func ext:io.ReaderAt.ReadAt
+//@   modifies p[:]
+//@   ensures 0 <= n && n <= len(p)
+//@   ensures forall k in p.off..p.off+n :: at(p, k) == fileByte(self, off + int64(k - p.off))
+//@   ensures n < len(p) ==> err != nil
+
+//@ func min
+//@   inline
+
+// Seq.Read: the bytes delivered are the bases cur, cur+1, ... of the sequence
+// (line terminators skipped), the cursor advances by the count returned, and a
+// nil error means the buffer was filled.
+//@ func Seq.Read
+//@   mode int
+//@   props C19
+//@   terminates
+//@   uses contiguous, runpositive, spread, nextline
+//@   requires wfRec(s.Record) && 0 <= s.cur && s.cur <= s.end && s.end <= s.Record.Length && s.r != nil
+//@   modifies b[:], s.cur
+//@   loop 0 invariant @shape 0 <= n && n == s.cur - old(s.cur) && s.cur <= s.end && len(b) == len(old(b)) - n && b.id == old(b).id && b.off == n && cap(b) == cap(old(b)) - n &&
+//@       s.Record == old(s.Record) && s.r == old(s.r) && s.end == old(s.end) && end == basePos(s.Record, s.end) && len(b) > 0
+//@   loop 0 invariant @content forall j in 0..n :: old(b)[j] == fileByte(s.r, basePos(s.Record, old(s.cur) + j))
+//@   loop 0 decreases s.end - s.cur + len(b)
+//@   ensures[C19] @count 0 <= result0 && result0 <= len(b) && s.cur == old(s.cur) + result0 && s.cur <= s.end
+//@   ensures[C19] @content forall j in 0..result0 :: b[j] == fileByte(s.r, basePos(s.Record, old(s.cur) + j))
+//@   ensures[C19] @filled result1 == nil ==> result0 == len(b)
+//@   ensures[C19] @frame s.Record == old(s.Record) && s.r == old(s.r) && s.end == old(s.end)
